@@ -95,6 +95,10 @@ func newHistRun(r *ev.Run, w *world, cfg histCfg) *histRun {
 	// the agent confirms "transfer remove" for T0 (found) but has not closed it yet; then a
 	// second transfer asks for T0's file: T0 is still running, its file is still taken
 	h.labels = append(h.labels, "transfer-remove-reply(T0, found)+open(T3)")
+	// the agent answers "transfer list" while T0 is running, then sends T0's next chunk.  The
+	// Demon's list holds the downloads its COMMAND_FS code tracks: the running transfers of
+	// that agent if this configuration opens them with COMMAND_FS, none if a BOF opens them
+	h.labels = append(h.labels, "transfer-list-reply(what the Demon tracks)+write(T0)")
 	return h
 }
 
@@ -110,6 +114,9 @@ func (h *histRun) decode(op int) (t int, kind string) {
 	}
 	if op == 3*u+3 {
 		return 0, "remove-reply"
+	}
+	if op == 3*u+4 {
+		return 0, "list-reply"
 	}
 	if op >= 3*u {
 		return u, []string{"write", "close"}[op-3*u]
@@ -167,6 +174,18 @@ func (h *histRun) step(hist []int) explore.StepResult {
 			w.post(x.ag, demonwire.Sub{Cmd: agent.COMMAND_TRANSFER, ReqID: w.req(x.ag), Body: rr})
 			t, kind = 3, "open"
 			x, mt = h.xfers[t], m[t]
+		}
+		if kind == "list-reply" {
+			lr := (&demonwire.W{}).I32(agent.DEMON_COMMAND_TRANSFER_LIST)
+			if h.cfg.open == "fs" {
+				for u, y := range h.xfers {
+					if y.ag == x.ag && m[u].open {
+						lr.I32(y.id).I32(uint32(len(m[u].content))).I32(agent.DOWNLOAD_STATE_RUNNING)
+					}
+				}
+			}
+			w.post(x.ag, demonwire.Sub{Cmd: agent.COMMAND_TRANSFER, ReqID: w.req(x.ag), Body: lr.B})
+			kind = "write"
 		}
 		if mt.req == 0 {
 			mt.req = w.req(x.ag) // a transfer keeps its request id from open to close (Download.c)
@@ -413,6 +432,9 @@ func (h *histRun) step(hist []int) explore.StepResult {
 		}
 		if _, k := h.decode(i); k == "remove-reply" && (!m[0].open || m[3].open) {
 			continue // only meaningful while T0 is running and T3 is not
+		}
+		if _, k := h.decode(i); k == "list-reply" && !m[0].open {
+			continue // only meaningful while T0 is running
 		}
 		en = append(en, i)
 	}
